@@ -92,6 +92,73 @@ HARNESSES = [
              'thorough': {'defs': {'LMAX': 7}, 'unwind': 11, 'cap': 3000}}},
 ]
 
+
+# ---- which included files are S_local (the class every export gate keys on): real find_include, includer class enumerated ----
+from cat.c17 import _STD_US as _INC_US, _DISJUNCT as _INC_DISJUNCT
+_SRCNAME = ('S_local (named on the command line as pkg/f.h)', 'S_alternate', 'S_system')
+
+
+def _incsrc(src, kinds):
+    return {'id': 'c04_include_source_%s_k%d' % (('local', 'alt', 'sys')[src], kinds), 'property': 'C04',
+            'src': 'c04_include_source.cxx', 'entry': 'harness_c04_include_source',
+            'tus': ['src/cppparser/cppPreprocessor.cxx', 'src/cppparser/cppFile.cxx', 'src/dtoolutil/dSearchPath.cxx',
+                    'src/dtoolutil/filename.cxx'],
+            'skip_ctors': ['cppPreprocessor.cxx'], 'tuflags': ['-fno-inline'],
+            'cut': ['_ZNK8Filename6existsEv', _INC_DISJUNCT], 'models': ['strdisjunct.c'],
+            # long concrete run: see cat/c17.py (bounds/overflow checks, base.c crash assertions and ASan replay stay on)
+            'cbmc_flags': ['--no-pointer-check'], 'object_bits': 16,
+            'desc': 'source class CPPPreprocessor::find_include gives an included file when the includer pkg/f.h is '
+                    + _SRCNAME[src] + '; search directories d1 d2 d3 given as '
+                    + ' '.join('-S' if kinds & (1 << i) else '-I' for i in range(3)),
+            'domain': 'candidates {x.h in cwd, pkg/x.h (next to the includer), d1/x.h, d2/x.h, d3/x.h}; concrete loop over include '
+                      'form (quotes / angle) and over the position of the first existing candidate in the applicable list; '
+                      'existence of every other candidate symbolic; includer class and -I/-S kinds fixed per catalogue entry',
+            'oracle': 'the included file is classified S_local iff it was found in the working directory: a file found next to '
+                      'its includer, via -I or via -S is never S_local (so none of its declarations passes an export gate), '
+                      'whatever the class of the includer; no other path is probed',
+            'bounds': {'quick': {'defs': {'INCSRC': src, 'KINDS': kinds}, 'unwind': 40, 'unwindset': _INC_US, 'cap': 600}},
+            'tiers': ('quick', 'thorough') if kinds == 5 else ('thorough',)}
+
+
+HARNESSES += [_incsrc(s, k) for k in (5, 0, 2, 7) for s in (0, 1, 2)]
+
+
+# ---- define_struct_type: fully defined (members exported) or opaque reference ----
+_P = 'src/cppparser/'
+_SD_TUS = [_B, 'src/interrogate/typeManager.cxx', 'src/interrogatedb/interrogateType.cxx'] + [_P + x for x in (
+    'cppStructType.cxx', 'cppExtensionType.cxx', 'cppTypeDeclaration.cxx', 'cppScope.cxx', 'cppInstance.cxx', 'cppFunctionType.cxx',
+    'cppFunctionGroup.cxx', 'cppParameterList.cxx', 'cppIdentifier.cxx', 'cppNameComponent.cxx', 'cppSimpleType.cxx',
+    'cppConstType.cxx', 'cppReferenceType.cxx', 'cppType.cxx', 'cppDeclaration.cxx', 'cppAttributeList.cxx', 'cppFile.cxx')] + [
+    'src/dtoolutil/filename.cxx']
+HARNESSES += [
+ {'id': 'c04_struct_define',
+  'property': 'C04',
+  'src': 'c04_struct_define.cxx',
+  'entry': 'harness_c04_struct_define',
+  'tus': _SD_TUS,
+  'cut': ['_ZN7CPPType8new_typeEPS_', '_ZN11TypeManager12resolve_typeEP7CPPTypeP8CPPScope',
+          '_ZN18InterrogateBuilder8get_typeEP7CPPTypeb',
+          '_ZN18InterrogateBuilder13define_methodEP11CPPInstanceR15InterrogateTypeP13CPPStructTypeP8CPPScope',
+          '_ZN18InterrogateBuilder12scan_elementEP11CPPInstanceP13CPPStructTypeP8CPPScope',
+          '_ZN18InterrogateBuilder12get_functionEP11CPPInstanceNSt7__cxx1112basic_stringIcSt11char_traitsIcESaIcEEEP13CPPStructTypeP8CPPScopeiRKS7_',
+          '_ZN18InterrogateBuilder17get_cast_functionEP7CPPTypeS1_RKNSt7__cxx1112basic_stringIcSt11char_traitsIcESaIcEEE',
+          '_ZN18InterrogateBuilder17get_make_propertyEP15CPPMakePropertyP13CPPStructTypeP8CPPScope',
+          '_ZN18InterrogateBuilder12get_make_seqEP10CPPMakeSeqP13CPPStructType'],
+  'skip_ctors': [x.split('/')[-1] for x in _SD_TUS] + ['cppExpression.cxx'],
+  'models': ['list.c'],
+  'desc': 'InterrogateBuilder::define_struct_type (with the real TypeManager::involves_unpublished / involves_protected and '
+          'CPPStructType traits) on a class Impl nested in a class W: filled with its members or left an opaque reference',
+  'domain': 'class W { <v0>: class Impl { <v1>: void poke(); <v2>: int secret; }; } built with the real cppparser constructors; '
+            'v0 (section Impl is declared in), v1, v2 in published..unknown, min_vis in {published, public}, forced (forcetype) '
+            'or not, ' + _FILE_DOMAIN.split(', min_vis')[0],
+  'oracle': 'Impl declared in a protected/private section => F_fully_defined cleared and no method, data member, constructor, '
+            'destructor, nested type or base recorded (whatever its members\' visibility, forced or not); same when neither '
+            'Impl nor a member has the requested visibility, and when not forced and the file is not local or is ignored; '
+            'nothing from a .c file; conversely every gate open => define_method / scan_element called once each with the '
+            'members and the implicit constructors / destructor registered',
+  'bounds': {'quick': {'unwind': 8, 'unwindset': dict(_GATE_LOOPS), 'cap': 600}}},
+]
+
 PROPERTY_INFO = {'C04': {'level': 'model_checking',
          'explanation': 'bounded symbolic execution (CBMC) of the real export gates and command-file parsing lowered from /repo, '
                         'driven from declaration objects with symbolic gate inputs',
